@@ -16,6 +16,7 @@ RULE = (
     "is a 'raise' statement with a message, in yadism or in a dependency) / internal failure (anything else, incl. a dead worker). "
     "(domain) requests with x<=0, x>1, Q2<=0, x below the grid, NaN or inf kinematics - for SF and XS alike - must end in an explicit "
     "rejection. Distinct = lattice cell x outcome class; non-trivial = the run returned a finite non-zero operator, or a rejection was observed."
+    " Long sessions: one process serves 72 distinct (x, Q2) points of a massive observable and then four ordinary requests of other kinds; all must be finite or explicitly rejected. An exception counts as explicit rejection only if raised by the package or one of its physics libraries (LeProHQ, adani, eko), never by scipy/numpy."
 )
 ASSUMPTIONS = ["an exception is an explicit rejection iff its innermost traceback frame is a raise statement carrying a message (decided from the traceback and linecache, not from the exception type)",
                "a watchdog timeout is inconclusive, never a violation"]  # fmt: skip
